@@ -203,8 +203,25 @@ func C01(tier rt.Tier) int {
 	if tier == rt.Thorough {
 		per = 2 * time.Minute
 	}
+	if rt.SubRun {
+		// BatchSize = 2: whatever the trie or its stores collect into batches of BatchSize is flushed every
+		// second element, so that histories of a few operations cross the threshold several times
+		runs = []alphabet{
+			{name: rt.VariantPrefix + "mem", kind: Mem, paths: p2[:9], vals: []string{"x", "y"}, depth: 4, version: 1},
+			{name: rt.VariantPrefix + "level-pnodedb", kind: LevelP, paths: p2[:9], vals: []string{"x", "y"}, flush: true, depth: 4, version: 1},
+			{name: rt.VariantPrefix + "pnodedb-direct", kind: PDirect, paths: p2[:9], vals: []string{"x"}, flush: true, depth: 4, version: 1},
+		}
+		if tier == rt.Thorough {
+			for i := range runs {
+				runs[i].paths, runs[i].depth = p2, 5
+			}
+		}
+	}
 	for _, a := range runs {
 		runAlphabet(rep, a, time.Now().Add(per), nil)
+	}
+	if rt.SubRun {
+		return rep.End()
 	}
 	{
 		// long histories of one instance: every cycle of up to 3 operations (and every 1-operation stem + cycle
@@ -234,5 +251,6 @@ func C01(tier rt.Tier) int {
 	}
 	rep.Set("rule", "BFS over all histories of the listed alphabets on a fresh real trie per history (replay); after every operation: return value/error judged against map model, every alphabet path looked up (raw and decoded), full value iteration compared; states merged on (model content, root, version, pending change set, writable-store keys); non-trivial = distinct merged state")
 	rep.Assumption("RocksDB is replaced by an in-memory write-log stand-in (third_party/grocksdb); PNodeDB's own code is real")
-	return rep.Finish()
+	rep.RunVariant()
+	return rep.End()
 }
